@@ -23,7 +23,8 @@ META = {
                    "across batches, additive and overwriting) with symbolic values, against a Python dict",
     "assumptions": ["floats as exact reals", "coordinates in a 3-point box per axis, dimension 1-2",
                     "scalar values (value_dim 1) and value_dim 2"],
-    "stubs": ["intersect_sets runs natively on the concrete integer coordinates (scipy KDTree)"],
+    "stubs": ["intersect_sets runs natively on the concrete integer coordinates (scipy KDTree)",
+              "the empty float value storage of a new SparseNdArray is given object dtype by the harness"],
     "outside": ["larger coordinate boxes / more batches than the bound"],
 }
 
@@ -68,11 +69,14 @@ def shards(tier, seed):
     return [{"hists": hist[i::k]} for i in range(k)]
 
 
-def _drive(h, values_of, check):
+def _drive(h, values_of, check, symbolic=False):
     import porepy as pp
 
     dim, vdim = h["dim"], h["vdim"]
     arr = pp.array_operations.SparseNdArray(dim, value_dim=vdim)
+    if symbolic:
+        # the (empty) value storage is created with np.ndarray(..., dtype=float); lift its dtype
+        arr._values = arr._values.astype(object).view(SymArr)
     ref = {}
     for bi, b in enumerate(h["batches"]):
         coords = [np.array(c) for c in b["coords"]]
@@ -128,7 +132,7 @@ def harness(ctx, h):
             ctx.check(name, bool(claim), case)
 
     try:
-        _drive(h, values_of, check)
+        _drive(h, values_of, check, symbolic=True)
     except PathAbort:
         raise
     except Exception as e:  # noqa: BLE001
